@@ -97,6 +97,15 @@ def replay_chunk(cases: List[Dict[str, Any]]):
             out["viol"].append((f"reproducible:fresh:{'sweep' if any(n['kind'].startswith('Sweep') for n in case['prog']) else 'plain'}",
                                 f"[{pk}] two traced runs (fresh Pipeline objects) differ after normalisation at {first_diff(n1, n2)}",
                                 {"case": case, "nodes": nodes, "detail": detail}))
+        # the caller edits its configuration structure in place after the Pipeline was built from it
+        if ci % 4 == 1 or any(n["kind"].startswith("Sweep") for n in case["prog"]):
+            tr4 = run_traced(nodes, *mk(), detail=detail, scramble=True)
+            n4 = normalise(tr4["records"])
+            if n4 != n1 or not same_outcome(tr4, un):
+                out["viol"].append((f"aliasing:config-edited-after-build:{'sweep' if any(n['kind'].startswith('Sweep') for n in case['prog']) else 'plain'}",
+                                    f"[{pk}] the configuration dicts were edited in place after Pipeline(...) was built from them: run / trace differ at "
+                                    f"{first_diff(n1, n4) if n4 != n1 else 'the returned value or exception'}",
+                                    {"case": case, "nodes": nodes, "detail": detail}))
         # the same configuration through an orchestrator object that has already run other pipelines
         if ci % 2 == 0 or any(n["kind"].startswith("Sweep") for n in case["prog"]):
             tr3 = run_traced(nodes, *mk(), detail=detail, orchestrator=shared_orch)
@@ -151,12 +160,13 @@ def hostile_payloads() -> List[tuple]:
     viol = []
     nodes_list = [[{"processor": "FloatDataSink"}], [{"processor": "FloatCollectValueProbe", "context_key": "a"}],
                   [{"processor": "FloatMultiplyOperation", "parameters": {"factor": 2.0}}],
-                  [{"processor": 'template:"{mixed}-{tup}":label'}]]       # reads the awkward values as parameters
+                  [{"processor": 'template:"{mixed}-{tup}-{sur}":label'}]]       # reads the awkward values as parameters
     for nodes in nodes_list:
         for detail in ["hash", "repr", "context", "all"]:
             def payload():
                 return verif_ext.VWeirdFloat(3.0), {"g": (i for i in range(3)), "e": verif_ext.VBadEq(), "k": 1.0,
-                                                    "mixed": {1: "a", "b": 2}, "tup": {(1, 2): "t"}}
+                                                    "mixed": {1: "a", "b": 2}, "tup": {(1, 2): "t"},
+                                                    "sur": "scan_\udcff.dat", "uni": "caf\u00e9_\u6e2c\u5b9a"}     # lone surrogate (os.fsdecode of a non-UTF-8 name), non-ASCII text
             # plain Pipeline objects here: the recording orchestrator deep-copies contexts, which these values refuse
             def plain_run(d, c, drv=None):
                 import copy as _copy
